@@ -13,6 +13,7 @@ ASSUME = [
     "renderings: Go structures, JSON, YAML (github.com/jsccast/yaml, as the hosts use), patterns as JSON text under patternSyntax json, compiled once / twice / forced, compiled-serialised-reloaded, sio.ResolveSpecSource inline / file:// JSON / file:// YAML",
     "behaviour = per message (delivered one at a time) the resulting state and emitted messages over three message sequences; error texts compared by presence",
     "mcrew-getspec: the YAML rendering is written to a spec directory and loaded by the real Service.GetSpec (driver compiled into cmd/mcrew by overlay), then walked over the same message sequences",
+    "msimple-file-yaml: the same file given to the cmd/msimple binary (built from the tree under test) with -r=false -d; one process per message sequence, states read from its '# next' lines, emitted messages from its output; the host's loader is tools.ReadFileWithInlines + jsccast/yaml + interpreters.Standard(), its control core.DefaultControl (all renderings are walked with that limit)",
 ]
 
 
@@ -38,6 +39,14 @@ def run(pid, tier, seed, replay):
     merged = os.path.join(wd, "load_merged.ndjson")
     vlib.run([drv, "merge", out, gout, merged], timeout=3000)
     out = merged
+    # ... and through the single-machine host cmd/msimple (the binary built from the tree under test, one run per message sequence)
+    msbin = os.path.join(wd, "msimple")
+    vlib.run(["go", "build", "-o", msbin, "./cmd/msimple"], cwd=vlib.REPO, env=vlib.goenv(), timeout=900)
+    mout = os.path.join(exp, "msimple_out.ndjson")
+    vlib.run([drv, "msimple", msbin, exp, mout], timeout=7000, env=dict(os.environ, MSIMPLE_MAX="3000"))
+    merged2 = os.path.join(wd, "load_merged2.ndjson")
+    vlib.run([drv, "merge", out, mout, merged2, "msimple-file-yaml"], timeout=3000)
+    out = merged2
     out2 = os.path.join(wd, "malformed.ndjson")
     vlib.run([drv, "malformed", str(150 if tier == "quick" else 2000), str(seed), out2], timeout=7000)
     allp = os.path.join(wd, "all.ndjson")
@@ -57,7 +66,7 @@ def run(pid, tier, seed, replay):
         "states": max(1, t["distinct"]), "transitions": max(1, t["generated"]), "traces_validated_against_impl": t["lines"],
         "samples": [{"unknown": c["unknown"], "renderings": [r["repr"] for r in c["reps"]], "reference_behaviour": c["reps"][0]["behaviours"][:1]}],
         "evaluations": stats.get("renderings", 0), "distinct_nontrivial": stats.get("specs", 0),
-        "rule": "seeded abstract specs (3 nodes, patterns of every JSON shape incl. bare strings and bare variables, guards, actions, error settings), each in up to 16 renderings (Go structures, JSON, YAML, JSON-text patterns, compiled twice / forced / retried, serialised and reloaded, sio's loader inline / file JSON / file YAML, cmd/mcrew's GetSpec); "
+        "rule": "seeded abstract specs (3 nodes, patterns of every JSON shape incl. bare strings and bare variables, guards, actions, error settings), each in up to 17 renderings (Go structures, JSON, YAML, JSON-text patterns, compiled twice / forced / retried, serialised and reloaded, sio's loader inline / file JSON / file YAML, cmd/mcrew's GetSpec, the cmd/msimple binary); "
                 "1 in 4 carries an unknown interpreter / branching type / pattern syntax; non-trivial = abstract specs compared",
         "judge_stats": stats, "exhaustive": False, "known_findings_hit": {k: v["count"] for k, v in rep.known.items()},
     }, ASSUME, time.time() - t0, len(rep.violations))
